@@ -608,7 +608,7 @@ def run_shard(ctx):
     return
 
   @seed(ctx.hseed())
-  @ctx.settings(ctx.n(12000, 400000))
+  @ctx.settings(ctx.n(9600, 400000))
   @given(cases())
   def t(case):
     if ctx.out_of_time():
